@@ -40,8 +40,12 @@ THEOREMS = [
     "C16.memo_eq_direct_dbg",
     "C16.memo_dbg_needs_wf",
     "C16.r4_laws",
+    # part 3 (Theorems3.lean): the conclusion index over full rules (Attrs.lean: dates, salience, no_loop, groups …)
+    "C16.conclusion_index_ignores_attributes",
+    "C16.from_rules_ignores_attributes",
+    "C16.conclusion_index_complete_any_window",
 ]
-LEAN_TARGETS = ["RreModel.C16.Theorems", "RreModel.C16.Theorems2"]
+LEAN_TARGETS = ["RreModel.C16.Theorems", "RreModel.C16.Theorems2", "RreModel.C16.Theorems3"]
 N = {"quick": 3000, "thorough": 40000}
 EXHAUSTIVE = {"quick": False, "thorough": False}
 RULE = ("cases = corpus (witnesses of F-C16a/F-C16b and corner cases) + a systematic part: every ordered pair (stored value, queried "
@@ -65,7 +69,7 @@ RULE = ("cases = corpus (witnesses of F-C16a/F-C16b and corner cases) + a system
         "array; two elements vs. one element spelling the separator or a closing+opening quote; N/6 random value lists nested 0..3 deep with near "
         "copies: wrapped, or the Debug text of a value as a string) and a CompactAlphaMemory family K (add/remove/contains over fact sets "
         "that print alike, one per pool pair + N/10 random) and a NodeSharingRegistry family N (register / unregister_rule / get: every history of length <= 3 over "
-        "two look-alike patterns x two rules + N/15 random ones over 11 patterns that coincide when concatenated). Every A/B/M/K/V observation carries the real format!(\"{:?}\", v) of every value of "
+        "two look-alike patterns x two rules + N/15 random ones over 11 patterns that coincide when concatenated). + a rule-attribute family (conclusion index / BackwardEngine histories whose rules carry attributes the index must ignore: date_effective in the future / past / with a UTC offset, date_expires in the past / future, both, salience i32::MIN/MAX, no_loop, lock_on_active, agenda / activation groups, description — 24 attribute lists x enabled/disabled x 5 fixed histories + N/5 random histories; model and oracle see the rule without them: C16.conclusion_index_ignores_attributes). Every A/B/M/K/V observation carries the real format!(\"{:?}\", v) of every value of "
         "the case (kt=), V the real alpha index key read off the public Debug of a one-fact indexed memory (ik=), M the real Debug text of every "
         "node (nk=), A the IndexStats counters (st=); the model renders the same texts (C16.debugKey / alphaKey / nodeKeyText) and they are "
         "diffed; the oracle checks on the REAL texts that two values print alike iff they are the same value and that two values share an "
